@@ -4,7 +4,7 @@
    (vm_compute) for the finite range in the statement; C16_partial = what is proved of C16_full. *)
 From Coq Require Import List ZArith QArith Bool Arith Lia.
 From GV Require Import Lib.Tree Lib.Graph16 Lib.PolyRefl16 Model.QCount Model.CliqueEq
-                       Proofs.QCountP Proofs.CliqueEqP Proofs.CycleGen Proofs.QQGen Proofs.CliqueGen Proofs.CrossGen Proofs.CayleyRed.
+                       Proofs.QCountP Proofs.CliqueEqP Proofs.CycleGen Proofs.QQGen Proofs.CliqueGen Proofs.CrossGen Proofs.CayleyRed Proofs.Cayley.
 Import ListNotations.
 
 (* ------------------------------------------------------------------------------------------------
@@ -21,7 +21,8 @@ Import ListNotations.
                              of u_v over the vertices v <> r in r's component of (vs, S).
    ------------------------------------------------------------------------------------------------ *)
 
-(* ---- the full statement of the property (kept visible; proved only in the bounded form below) *)
+(* ---- the full statement of the property.  Originally proved only in the bounded form C16_partial below;
+   the growth round proves it in full: C16_holds : C16_full (near the end of this file). *)
 Definition C16_full : Prop :=
   (* clique equation, arbitrary clique size, heterogeneous neighbour values *)
   (forall tau, (2 <= tau)%nat -> forall (phi : Q) (Hs : list Q), length Hs = (tau - 1)%nat ->
@@ -438,6 +439,61 @@ Proof.
 Qed.
 Print Assumptions C16_full_reduces_to_Cayley.
 
+(* ================================================================================================
+   GROWTH, final step: CAYLEY'S FORMULA and with it the WHOLE property, unbounded.
+   ================================================================================================ *)
+(* [NQ V R] = number of edge sets F of the complete graph on the vertex list V with |F| + |R| = |V| in which
+   every vertex reaches a root of R (rooted forests).  |V| NQ(V,R) = |R| |V|^(|V|-|R|)  (Proofs/Cayley.v:
+   removing a root turns its neighbours into roots; binomial theorem in subset form). *)
+Theorem C16_rooted_forest_count : forall n V R, length V = n -> NoDup V -> NoDup R -> incl R V ->
+  inject_Z (Z.of_nat (length V)) * NQ V R ==
+  inject_Z (Z.of_nat (length R)) * qpn (inject_Z (Z.of_nat (length V))) (length V - length R).
+Proof. exact forest_count. Qed.
+Print Assumptions C16_rooted_forest_count.
+
+(* the number of labelled trees on n >= 2 vertices is n^(n-2): the k = n-1 shortcut of Q is exact *)
+Theorem C16_Cayley_formula : forall n, (2 <= n)%nat -> brute n (n - 1) = (Z.of_nat n ^ (Z.of_nat n - 2))%Z.
+Proof. exact Cayley_formula. Qed.
+Print Assumptions C16_Cayley_formula.
+
+(* GENERAL: the recursion Q as written, and the memoised table the model runs, count the connected labelled
+   graphs with n vertices and k edges, for ALL n >= 1 and ALL 0 <= k <= n(n-1)/2 *)
+Theorem C16_Q_count_general : forall n k, (1 <= n)%nat -> (0 <= k <= tri (Z.of_nat n))%Z ->
+  Qcode n k = brute n (Z.to_nat k) /\ Qv n k = brute n (Z.to_nat k) /\ QQv n k = brute n (Z.to_nat k).
+Proof.
+  exact (fun n k Hn Hk => conj (Q_count_general n k Hn Hk)
+                            (conj (Qv_count_general n k Hn Hk) (QQ_eq_brute_general n k Hk))).
+Qed.
+Print Assumptions C16_Q_count_general.
+
+(* GENERAL: clique_equation = exact bond-percolation expectation on K_tau for EVERY tau >= 2, every rational
+   phi, every heterogeneous list of tau - 1 neighbour values *)
+Theorem C16_clique_identity_general : forall tau, (2 <= tau)%nat ->
+  forall (phi : Q) (Hs : list Q), length Hs = (tau - 1)%nat ->
+    clique_val tau phi Hs == exact_val (seq 0 tau) (all_edges tau) 0 phi (fun v => nth (v - 1) Hs 0).
+Proof. exact clique_identity_general. Qed.
+Print Assumptions C16_clique_identity_general.
+
+(* THE FULL STATEMENT of the property (kept visible at the top of this file as C16_full) *)
+Theorem C16_holds : C16_full.
+Proof.
+  exact (conj clique_identity_general (conj cycle_identity_general
+          (conj (fun n k Hn Hk => conj (Q_count_general n k Hn Hk) (QQ_eq_brute_general n k Hk)) ncg_spec))).
+Qed.
+Print Assumptions C16_holds.
+
+(* GENERAL: the model's Q and QQ values pass the verified checker for every n, k and every bmax *)
+Theorem C16_Q_model_meets_check_general : forall bmax n k, (1 <= n)%nat -> (0 <= k <= tri (Z.of_nat n))%Z ->
+  check_count bmax n k (Qv n k) = true /\ check_count bmax n k (QQv n k) = true.
+Proof.
+  intros bmax n k Hn Hk. unfold check_count, count_spec.
+  destruct (Z.ltb_spec k 0); [lia|].
+  rewrite (Qv_count_general n k Hn Hk), (QQ_eq_brute_general n k Hk).
+  destruct (n <=? Nat.min bmax 7)%nat; [rewrite Z.eqb_refl; auto|].
+  rewrite (cross_eq_brute n k Hn) by lia. rewrite Z.eqb_refl. auto.
+Qed.
+Print Assumptions C16_Q_model_meets_check_general.
+
 (* ---- non-vacuity: concrete non-trivial inputs meeting the hypotheses *)
 (* the triangle with a pendant vertex, ak = [1;2], i = 0, k = 1: three ways to delete one edge of the
    induced triangle and stay connected; hypotheses of C16_ncg_spec hold *)
@@ -509,3 +565,15 @@ Example C16_nonvacuous_cross :
   (1 <= 9)%nat /\ (0 <= 12)%Z /\ cross 9 12 = Qv 9 12 /\ (cross 9 12 > 0)%Z /\
   check_count 6 9 12 (cross 9 12) = true /\ check_count 6 9 12 (cross 9 12 + 1) = false.
 Proof. split; [lia|]. split; [lia|]. vm_compute. repeat split; reflexivity. Qed.
+
+(* growth: Cayley's formula at n = 5 (hypothesis 2 <= 5): 125 = 5^3 labelled trees; the rooted-forest count on
+   V = [3;1;4;2] with roots [4;1] (hypotheses NoDup / incl hold): 4 * NQ = 2 * 4^2, i.e. NQ = 8 *)
+Example C16_nonvacuous_cayley :
+  (2 <= 5)%nat /\ brute 5 4 = 125%Z /\ (5 ^ (5 - 2) = 125)%Z /\
+  NoDup [3; 1; 4; 2]%nat /\ NoDup [4; 1]%nat /\ incl [4; 1]%nat [3; 1; 4; 2]%nat /\
+  Qred (NQ [3; 1; 4; 2]%nat [4; 1]%nat) = 8.
+Proof.
+  split; [lia|]. split; [vm_compute; reflexivity|]. split; [reflexivity|].
+  split; [repeat constructor; cbn; lia|]. split; [repeat constructor; cbn; lia|].
+  split; [intros v Hv; cbn in *; lia|]. vm_compute. reflexivity.
+Qed.
